@@ -80,13 +80,17 @@ func mapString(m map[string]sdkmath.Int) string {
 }
 
 func (l *Listener) call(ctx context.Context, method, args, pre string) error {
+	return l.callRaw(ctx, method, args, pre, "")
+}
+
+func (l *Listener) callRaw(ctx context.Context, method, args, pre, raw string) error {
 	phase, txh, bh, ok := l.rec.phase(ctx)
 	if !ok {
 		return nil
 	}
 	l.rec.mu.Lock()
 	defer l.rec.mu.Unlock()
-	hc := HookCall{Phase: phase, TxHash: txh, BlockHash: bh, Listener: l.idx, Method: method, Args: args, PreStored: pre}
+	hc := HookCall{Phase: phase, TxHash: txh, BlockHash: bh, Listener: l.idx, Method: method, Args: args, PreStored: pre, Raw: raw}
 	in := l.rec.inj
 	var err error
 	if in != nil && in.HookMethod == method && in.HookListener == l.idx {
@@ -140,7 +144,7 @@ func (l *Listener) BeforeAuctionCanceled(ctx context.Context, auctionId uint64, 
 
 func (l *Listener) BeforeBidPlaced(ctx context.Context, auctionId, bidId uint64, bidder string, bidType types.BidType, price sdkmath.LegacyDec, coin sdk.Coin) error {
 	has, _ := l.k.Bid.Has(ctx, collections.Join(auctionId, bidId))
-	return l.call(ctx, "BeforeBidPlaced", fmt.Sprintf("%d|%d|%s|%d|%s|%s", auctionId, bidId, canonAddr(bidder), int(bidType), price, coin), fmt.Sprintf("stored=%v", has))
+	return l.callRaw(ctx, "BeforeBidPlaced", fmt.Sprintf("%d|%d|%s|%d|%s|%s", auctionId, bidId, canonAddr(bidder), int(bidType), price, coin), fmt.Sprintf("stored=%v", has), bidder)
 }
 
 func (l *Listener) BeforeBidModified(ctx context.Context, auctionId, bidId uint64, bidder string, bidType types.BidType, price sdkmath.LegacyDec, coin sdk.Coin) error {
@@ -148,7 +152,7 @@ func (l *Listener) BeforeBidModified(ctx context.Context, auctionId, bidId uint6
 	if b, err := l.k.Bid.Get(ctx, collections.Join(auctionId, bidId)); err == nil {
 		pre = fmt.Sprintf("stored=%v", b.Price.Equal(price) && b.Coin.IsEqual(coin))
 	}
-	return l.call(ctx, "BeforeBidModified", fmt.Sprintf("%d|%d|%s|%d|%s|%s", auctionId, bidId, canonAddr(bidder), int(bidType), price, coin), pre)
+	return l.callRaw(ctx, "BeforeBidModified", fmt.Sprintf("%d|%d|%s|%d|%s|%s", auctionId, bidId, canonAddr(bidder), int(bidType), price, coin), pre, bidder)
 }
 
 func (l *Listener) BeforeAllowedBiddersAdded(ctx context.Context, allowedBidders []types.AllowedBidder) error {
